@@ -166,14 +166,16 @@ class Check:
         self.failures.append({"key": key, "what": what, "replay": replay})
 
     # ---- Coq --------------------------------------------------------------
-    def ensure_built(self):
-        """Bring the static development up to date (no-op when setup.sh has run)."""
+    def ensure_built(self, targets=None):
+        """Bring the needed part of the static development up to date (no-op after setup.sh).
+        targets: list like ["Props/C10.vo", "Run/C10_run.vo"]; None = everything."""
         lock = open(os.path.join(COQ, ".build.lock"), "w")
         fcntl.flock(lock, fcntl.LOCK_EX)
         try:
             subprocess.run(["sh", os.path.join(COQ, "mkproject.sh")], check=True, cwd=COQ,
                            stdout=subprocess.DEVNULL)
-            r = subprocess.run(["timeout", "2400", "make", "-j16"], cwd=COQ, capture_output=True, text=True)
+            cmd = ["timeout", "3000", "make", "-j16"] + (list(targets) if targets else [])
+            r = subprocess.run(cmd, cwd=COQ, capture_output=True, text=True)
         finally:
             fcntl.flock(lock, fcntl.LOCK_UN)
         return r.returncode == 0, (r.stdout + r.stderr)
@@ -187,24 +189,44 @@ class Check:
         r = subprocess.run(cmd, capture_output=True, text=True, cwd=self.build)
         return r.returncode == 0, r.stdout, r.stderr
 
-    def hygiene(self):
+    def dep_closure(self, rel_files):
+        """Transitive closure of `From NessaiV Require ... X.Y` imports, as paths relative to coq/."""
+        seen, todo = set(), list(rel_files)
+        while todo:
+            f = todo.pop()
+            if f in seen or not os.path.exists(os.path.join(COQ, f)):
+                continue
+            seen.add(f)
+            txt = strip_comments(open(os.path.join(COQ, f)).read())
+            for m in re.finditer(r"From\s+NessaiV\s+Require\s+(?:Import\s|Export\s)?\s*(.+?)\.(?=\s|$)", txt, re.S):
+                for mod in m.group(1).split():
+                    todo.append(mod.replace(".", "/") + ".v")
+            for m in re.finditer(r"Require\s+(?:Import|Export)?\s+((?:NessaiV\.[A-Za-z0-9_.]+\s*)+)\.", txt):
+                for mod in m.group(1).split():
+                    todo.append(mod[len("NessaiV."):].replace(".", "/") + ".v")
+        return sorted(seen)
+
+    def hygiene(self, rel_files=None):
         bad = []
-        for root, _, files in os.walk(COQ):
-            for f in files:
-                if f.endswith(".v"):
-                    p = os.path.join(root, f)
-                    txt = strip_comments(open(p).read())
-                    for m in FORBIDDEN.finditer(txt):
-                        bad.append(f"{os.path.relpath(p, VERIF)}: {m.group(0)}")
-        self.oblige("hygiene: no Admitted/admit/Axiom/Parameter/Conjecture/guard switches in coq/",
-                    "hygiene", not bad, "; ".join(bad))
+        if rel_files is None:
+            rel_files = [os.path.relpath(os.path.join(r, f), COQ) for r, _, fs in os.walk(COQ) for f in fs
+                         if f.endswith(".v")]
+        for rel in rel_files:
+            txt = strip_comments(open(os.path.join(COQ, rel)).read())
+            for m in FORBIDDEN.finditer(txt):
+                bad.append(f"coq/{rel}: {m.group(0)}")
+        self.oblige(f"hygiene: no Admitted/admit/Axiom/Parameter/Conjecture/guard switches in the {len(rel_files)} "
+                    "Coq files this property depends on", "hygiene", not bad, "; ".join(bad))
+        self.notes.append("coq files in scope: " + " ".join(rel_files))
         return not bad
 
-    def static_props(self, props_files):
-        """Recompile Props/<f>.v (statements + exact + Print Assumptions), one obligation per theorem."""
-        ok, log = self.ensure_built()
+    def static_props(self, props_files, run_files=()):
+        """Build Props/<f>.vo and Run/<r>.vo with their dependencies, then recompile a copy of each
+        Props/<f>.v (statements + exact + Print Assumptions): one obligation per theorem."""
+        targets = [f"Props/{f}.vo" for f in props_files] + [f"Run/{r}.vo" for r in run_files]
+        ok, log = self.ensure_built(targets)
         self.oblige("static development builds (make, full .vo)", "build", ok, log)
-        self.hygiene()
+        self.hygiene(self.dep_closure([f"Props/{f}.v" for f in props_files] + [f"Run/{r}.v" for r in run_files]))
         if not ok:
             return False
         allok = True
@@ -326,10 +348,14 @@ class Check:
 
 # ---------------------------------------------------------------------------
 def load_known():
+    out = []
     p = os.path.join(VERIF, "known_findings.json")
-    if not os.path.exists(p):
-        return []
-    return json.load(open(p)).get("findings", [])
+    if os.path.exists(p):
+        out += json.load(open(p)).get("findings", [])
+    import glob
+    for q in sorted(glob.glob(os.path.join(VERIF, "known_findings.d", "*.json"))):
+        out += json.load(open(q)).get("findings", [])
+    return out
 
 
 def strip_comments(txt):
